@@ -217,12 +217,18 @@ where
     }
 
     // Query apply cache
+    //
+    // The result depends on the number of levels (the `Base` terminal of
+    // `vars` stands for "all remaining variables are false", and
+    // `restrict_base()` uses the tautology chain). Adding variables does not
+    // clear the apply cache, so the number of levels is part of the key.
+    let num_levels = manager.num_levels();
     stat!(cache_query Restrict);
-    if let Some(res) =
-        manager
-            .apply_cache()
-            .get(manager, Restrict, &[f.borrowed(), vars.borrowed()])
-    {
+    if let Some(([res], [])) = manager.apply_cache().get_extended::<1, 0>(
+        manager,
+        Restrict,
+        (&[f.borrowed(), vars.borrowed()], &[num_levels]),
+    ) {
         stat!(cache_hit Restrict);
         return Ok(res);
     }
@@ -239,9 +245,12 @@ where
     let res = reduce(manager, level, hi.into_edge(), lo.into_edge(), Restrict)?;
 
     // Add to apply cache
-    manager
-        .apply_cache()
-        .add(manager, Restrict, &[f, vars], res.borrowed());
+    manager.apply_cache().add_extended(
+        manager,
+        Restrict,
+        (&[f, vars], &[num_levels]),
+        (&[res.borrowed()], &[]),
+    );
 
     Ok(res)
 }
